@@ -89,14 +89,15 @@ def programs(draw, opts=None):
                 choices.append("loc")
             if opts.get("rt", True) and here_params:
                 choices.append("par")
-            if not keep and opts.get("nested_args") and inline_cands:
-                choices.append("icall")
+            if opts.get("nested_args") and inline_cands:
+                choices.append("icall")     # a call written inside the argument list (for a keep: a run-time argument)
             c = draw(st.sampled_from(choices))
             sp = draw(st.sampled_from(["pos", "kw"]))
             if c == "icall":
                 j = draw(st.sampled_from(inline_cands))
                 args.append(["icall", j, draw(st.sampled_from(M.FORMS)), sp])
                 referenced.add(j)
+                rt = True
                 continue
             if c == "lit":
                 args.append(["lit", enc(draw(st.sampled_from(LIT_VALUES))), sp])
@@ -160,7 +161,8 @@ def programs(draw, opts=None):
                     body.append(["ext", 2])
                     continue
                 callee = prog["funcs"][j]
-                args, rt = gen_args(callee, len(body), here_params, keep=True)
+                inl = [q for q in range(i) if q != j and q not in unique and all(d != NO for _, d in prog["funcs"][q]["params"])]
+                args, rt = gen_args(callee, len(body), here_params, keep=True, inline_cands=inl)
                 stt = ["keep", new_path(), j, draw(st.sampled_from(["bare", "alias"])), args]
                 if opts.get("multiline", True) and draw(st.integers(0, 3)) == 0:
                     stt.append("multiline")
